@@ -317,7 +317,7 @@ PROPS = {
                    "exercised on a fresh instance). With new ids the last step relies on c15_replace_consistent plus the correspondence run. The YAML text is not modelled.",
     },
     "C02": {
-        "required_theorems": ["c02_no_write_lost", "c02_points_converge", "c02_exchange_converges_on_stores", "c02_equal_hash_is_skipped", "c02_agreed_node_is_quiet", "c02_pass_is_local", "c02_pass_converges_where_hash_is_faithful", "c02_pass_converges_whole_subtree", "c02_forwarding_order_irrelevant", "c02_stored_rows_on_every_store", "c02_missing_subtree_is_sent", "c02_missing_subtree_keeps_store_invariant", "c02_pass_sends_a_node_missing_upstream", "c02_missing_downstream_arrives_one_level_per_pass", "gen_sync_pinned",
+        "required_theorems": ["c02_no_write_lost", "c02_points_converge", "c02_exchange_converges_on_stores", "c02_equal_hash_is_skipped", "c02_agreed_node_is_quiet", "c02_pass_is_local", "c02_pass_converges_where_hash_is_faithful", "c02_pass_converges_whole_subtree", "c02_forwarding_order_irrelevant", "c02_stored_rows_on_every_store", "c02_missing_subtree_is_sent", "c02_missing_subtree_keeps_store_invariant", "c02_pass_sends_a_node_missing_upstream", "c02_missing_downstream_arrives_one_level_per_pass", "c02_missing_downstream_node_is_copied", "gen_sync_pinned",
                               "c02_loop_catch_up_while_connected", "c02_loop_forward_iff_connected", "c02_loop_redial_pending", "gen_syncloop_pinned"],
         "n": {"quick": 300, "thorough": 2000},
         "thorough_seeds": 3,
